@@ -330,9 +330,11 @@ PROPS["C11"] = dict(
 PROPS["C14"] = dict(
     asan=True,
     lean_targets=["SJ.Props.C14", "SJ.Audit.C14"],
-    configs=dict(quick=["d"], thorough=["d", "ud", "ap"]),
+    configs=dict(quick=["d", "ud"], thorough=["d", "ud", "ap"]),
     gen_keys=["de."],
-    rule=PARSE_RULE + " C14 adds 20k (thorough 200k) random byte strings biased to JSON punctuation, and ten pathological inputs "
+    rule=PARSE_RULE + " C14 adds typed targets built from arrays, newtype-enum and struct-enum wrappers nested 1..140 deep in six "
+         "mixes (accepted iff at most 127 containers are open), unbounded_depth runs with the limit disabled at depth 127..1000 "
+         "directly and through a stream, 20k (thorough 200k) random byte strings biased to JSON punctuation, and ten pathological inputs "
          "(10^6-deep arrays open/balanced, 2*10^5-deep objects, 4 MB string, 10^6 escapes, 10^6-digit integer/fraction/exponents, "
          "10^6-element array) each through Value (slice, reader) and IgnoredAny under catch_unwind.",
     trusted_base=MACHINE_TB,
